@@ -78,7 +78,7 @@ def rule_grammar_literals(ctx: Ctx, rid="C05.GRAMMAR-LITERAL"):
         exp = f"-{want}" if "MINUS" in p.syms else want
         ctx.rep.check(got == exp, rid, f"language/grammar.py:{p}", f"returns {got}" if got == exp else f"returns {got}, expected {exp}",
                       site=p.site, text=f"{p} -> {got}")
-    ctx.rep.floor("literal/weight productions", n, 7)
+    ctx.rep.floor("literal/weight productions", n, 5)
 
 
 def check(rep):
@@ -88,6 +88,7 @@ def check(rep):
     rule_token_conv(ctx)
     rule_number_order(ctx)
     LR.rule_string_minimal(ctx)
+    LR.rule_string_delimiters(ctx)
     rule_grammar_literals(ctx)
     PR.rule_compiles(ctx, rid="C05.SHAPE-COMPILES", strict=False)
     from . import evalrules as ER
